@@ -119,9 +119,39 @@ class Exporter:
         self.net = nets(bpj)
         self.index = {}  # entity_number -> position
         self.used_inputs = {}
+        self.ideal = None
+
+    def set_ideal(self, harvest):
+        """idealised wiring from the compiler's own logical edges: every consumer gets private
+        input networks (one per colour); a producer drives the private networks of exactly the
+        consumers it has an edge to, on the colour the compiler chose for that edge."""
+        num = id_to_number(self.j, harvest)
+        ins = {}
+        outs = {}
+        for src, snk, sig, col, *_m in harvest["edges"]:
+            if src not in num or snk not in num:
+                raise Unsupported(f"edge endpoint without entity: {src}->{snk}")
+            s, k = num[src], num[snk]
+            c = 1 if col == "red" else 2
+            ins.setdefault((k, c), k)
+            outs.setdefault((s, c), [])
+            if k not in outs[(s, c)]:
+                outs[(s, c)].append(k)
+        self.ideal = (ins, outs)
 
     def nid(self, en, c):
+        if self.ideal is not None:
+            return f"{self.ideal[0].get((en, c), 0)}%N"
         return f"{self.net.get((en, c), 0)}%N"
+
+    def nids_out(self, en, c):
+        """networks driven by output connector c of entity en (c: 1/2 for one-sided entities, 3/4
+        for combinator outputs)"""
+        if self.ideal is not None:
+            col = 1 if c % 2 == 1 else 2
+            return "[" + "; ".join(f"{k}%N" for k in self.ideal[1].get((en, col), [])) + "]"
+        n = self.net.get((en, c), 0)
+        return f"[{n}%N]" if n else "[]"
 
     def sname(self, sd):
         return sd["name"]
@@ -215,7 +245,7 @@ class Exporter:
             k, (ir, ig, orr, og) = self.kind(e)
             en = e["entity_number"]
             f = lambda c: self.nid(en, c) if c else "0%N"
-            fl = lambda c: "[" + (self.nid(en, c) if (c and self.net.get((en, c), 0)) else "") + "]"
+            fl = lambda c: self.nids_out(en, c) if c else "[]"
             ents.append(
                 f"{{| e_kind := {k}; e_ir := {f(ir)}; e_ig := {f(ig)}; e_or := {fl(orr)}; e_og := {fl(og)} |}}"
             )
@@ -231,6 +261,86 @@ class Exporter:
             if a and e["name"] == "constant-combinator":
                 out.append((a[0], a[1], e["entity_number"]))
         return out
+
+
+def id_to_number(bpj, harvest):
+    """map the compiler's placement ids to blueprint entity numbers through (prototype, position)"""
+    by_pos = {}
+    for e in entities_of(bpj):
+        by_pos[(e["name"], round(float(e["position"]["x"]) * 2), round(float(e["position"]["y"]) * 2))] = e["entity_number"]
+    out = {}
+    for k, (ty, x, y, role) in harvest["places"].items():
+        n = by_pos.get((ty, round(x * 2), round(y * 2)))
+        if n is not None:
+            out[k] = n
+    return out
+
+
+def side(name, is_source):
+    if name in COMBINATORS:
+        return (3, 4) if is_source else (1, 2)
+    return (1, 2)
+
+
+def partition_expected(bpj, harvest):
+    """the partition of connectors the compiler's own design implies: each logical edge joins the
+    producer's output connector and the consumer's input connector of the chosen colour"""
+    num = id_to_number(bpj, harvest)
+    names = {e["entity_number"]: e["name"] for e in entities_of(bpj)}
+    dsu = DSU()
+    touched = set()
+    for src, snk, sig, col, *_m in harvest["edges"]:
+        if src not in num or snk not in num:
+            return None
+        ci = 0 if col == "red" else 1
+        a = (num[src], side(names[num[src]], True)[ci])
+        c = (num[snk], side(names[num[snk]], False)[ci])
+        dsu.union(a, c)
+        touched.add(a)
+        touched.add(c)
+    groups = {}
+    for k in touched:
+        groups.setdefault(dsu.find(k), set()).add(k)
+    return {frozenset(g) for g in groups.values() if len(g) > 1}
+
+
+def partition_actual(bpj):
+    names = {e["entity_number"]: e["name"] for e in entities_of(bpj)}
+    n = nets(bpj)
+    groups = {}
+    for (en, c), nid in n.items():
+        if names[en] in POLES:
+            continue
+        groups.setdefault((c % 2, nid), set()).add((en, c))
+    return {frozenset(g) for g in groups.values() if len(g) > 1}
+
+
+def s10_region(bpj, harvest):
+    """known finding S10: a multi-condition decider whose rows carry no per-row network selection
+    receives the same signal name from two different producers"""
+    num = id_to_number(bpj, harvest)
+    multi = set()
+    for e in entities_of(bpj):
+        if e["name"] == "decider-combinator":
+            dc = (e.get("control_behavior") or {}).get("decider_conditions", {})
+            if len(dc.get("conditions", [])) >= 2:
+                multi.add(e["entity_number"])
+    seen = {}
+    for src, snk, sig, col, *_m in harvest["edges"]:
+        k = num.get(snk)
+        if k in multi:
+            seen.setdefault((k, sig), set()).add(src)
+    return any(len(v) >= 2 for v in seen.values())
+
+
+def s16_region(bpj, harvest):
+    """known finding S16: three or more independent producers of one signal name at one consumer
+    cannot be separated by two wire colours (producers summed on purpose by one wire merge count once)"""
+    groups = {}
+    for src, snk, sig, col, *m in harvest["edges"]:
+        mid = m[0] if m else None
+        groups.setdefault((snk, sig), set()).add(("merge", mid) if mid else ("src", src))
+    return any(len(v) >= 3 for v in groups.values())
 
 
 def load(text):
